@@ -18,6 +18,9 @@ const wrapIndex = 3
 
 // kindOf maps a case index to the part of the workload it runs.
 func kindOf(i int) string {
+	if i%20 == 17 {
+		return "close-fail"
+	}
 	switch i % 10 {
 	case 5:
 		return "listener"
@@ -59,6 +62,8 @@ func run(c *core.Case) {
 		runForced(c)
 	case "listener":
 		runListener(c)
+	case "close-fail":
+		runCloseFail(c)
 	}
 }
 
@@ -86,7 +91,7 @@ func Prop() *core.Prop {
 		Race:  true,
 		Rule: "case i runs one of: (transfer, 5/10) two real sessions joined by bufconn.Pipe, each serving a mux with ibb.Handle; 1-2 streams opened from either end with block size in {1,2,3,4,5,63,64,4095,4096,65535,default}, IQ or message carrier, payload lengths around multiples of the block size, of 3 and of 768/1024, PRNG partitions into Write/Flush, both directions at once, PRNG reader buffer sizes and start delays, transport read chunking and write yields; either side closes; " +
 			"(raw-recv, 2/10) the library accepts a stream from a raw XEP-0047 speaker that interleaves valid data with packets for unknown/closed sids, out-of-sequence numbers, undecodable base64 and packets exceeding SetReadBuffer; (raw-send, 1/10) the library opens towards the raw speaker, which refuses or accepts and then acts as an independent receiver; " +
-			"(listener, 1/10) the accepting side's API — Listen, Accept, Expect (live, cancelled, expired, replaced), Listener.Close idle and while an <open/> waits for Accept, several Expects and an Accept at once, re-Listen — against the raw speaker and against a second library session; streams must go to the entitled call, nothing may panic, and the serve loop may not stay parked in the IBB handler unless it is the application that keeps an <open/> waiting; (raw-wrap, case 3 of every tier) the raw speaker sends 65 541 one-byte packets numbered 0…65535,0…4 in batches without waiting (message carrier: no refusal stanza may come back; IQ carrier: every packet acknowledged), a reader drains, bytes must be equal; (forced, 1/10) scenarios I1-I3 park the reader at ibb.read.wait or the handler at ibb.data.notify with the controller. Thorough case 0 sends 65 537+ packets on one stream. Oracle: byte equality per direction, consecutive seq on a wire tap, EOF placement, error condition per injected packet, stall rule for parked readers, race detector. distinct = distinct (shape, outcome) signatures.",
+			"(listener, 1/10) the accepting side's API — Listen, Accept, Expect (live, cancelled, expired, replaced), Listener.Close idle and while an <open/> waits for Accept, several Expects and an Accept at once, re-Listen — against the raw speaker and against a second library session; streams must go to the entitled call, nothing may panic, and the serve loop may not stay parked in the IBB handler unless it is the application that keeps an <open/> waiting; (close-fail, 1/20) a local Close that does not go through (its <close/> unanswered until the write deadline, answered with an error, transport write failing) or that runs while data is coming in, followed by data / out-of-sequence data / a <close/> from the speaker for that sid and a barrier: no panic, answers as for a stream that is either still open or gone, EOF for the reader if the speaker's close is accepted; (raw-wrap, case 3 of every tier) the raw speaker sends 65 541 one-byte packets numbered 0…65535,0…4 in batches without waiting (message carrier: no refusal stanza may come back; IQ carrier: every packet acknowledged), a reader drains, bytes must be equal; (forced, 1/10) scenarios I1-I3 park the reader at ibb.read.wait or the handler at ibb.data.notify with the controller. Thorough case 0 sends 65 537+ packets on one stream. Oracle: byte equality per direction, consecutive seq on a wire tap, EOF placement, error condition per injected packet, stall rule for parked readers, race detector. distinct = distinct (shape, outcome) signatures.",
 		Assumptions: []string{
 			"bufconn.Pipe is a faithful reliable ordered transport",
 			"the closing side's reader is only required to deliver a prefix of what the other side wrote; the non-closing side's last 0-2 bytes (incomplete base64 group) may legitimately wait for its own close",
@@ -107,6 +112,7 @@ func Prop() *core.Prop {
 			"eof_after_close", "data_packets_on_wire", "concurrent_stream_cases",
 			"inject_unknown_sid", "inject_closed_sid", "inject_bad_seq", "inject_bad_base64", "inject_oversize",
 			"refused_opens", "raw_receiver_transfers", "raw_wrap_runs",
+			"close_fail_cases", "local_close_failed_timeout", "local_close_failed_write-fails", "close_concurrent_with_inbound_data", "packets_after_failed_or_concurrent_close", "serve_loop_alive_after_failed_close",
 			"listener_cases", "listener_expects_given_up", "listener_expect_took_precedence", "listener_expect_replaced", "listener_closed_while_open_pending",
 			"listener_close_unblocked_accept", "listener_relisten_works", "listener_concurrent_expects", "listener_open_refused_closed_listener", "listener_streams_used",
 			"set_read_buffer_unlimited", "set_read_buffer_below_block", "passive_side_holds_base64_remainder_at_close", "passive_side_unflushed_at_close", "serve_loops_alive_after_transfer",
